@@ -63,8 +63,9 @@ static std::vector<ShapeSnap> snapAll(NifFile& nif) {
 
 struct PartFlags {
 	std::map<size_t, bool> notRebuilt, coverInvalid; // per shape index; absent = rebuilt / valid
+	std::map<size_t, bool> trianglesChanged;         // the shape's triangle list was replaced: the next rebuild has to cover the new list
 	bool rebuilt(size_t i) const { return !notRebuilt.count(i) || !notRebuilt.at(i); }
-	bool cover(size_t i) const { return !coverInvalid.count(i) || !coverInvalid.at(i); }
+	bool cover(size_t i) const { return (!coverInvalid.count(i) || !coverInvalid.at(i)) && !(trianglesChanged.count(i) && trianglesChanged.at(i)); }
 };
 
 // onlyRebuilt: C10 after a restart – only shapes whose partitions were rebuilt since their last edit are held to the invariants
@@ -163,6 +164,9 @@ void profile_mesh(const json& plan, Ctx& ctx) {
 		auto shapes = w.nif->GetShapes();
 		size_t sidx = shapes.empty() ? 0 : size_t(ju64(st, "shape", 0) % shapes.size());
 		NiShape* shape = shapes.empty() ? nullptr : shapes[sidx];
+		if (op != "UpdateSkinPartitions" && op != "AddTriangles")
+			for (auto& kv : pf.trianglesChanged)
+				if (kv.second) { kv.second = false; pf.coverInvalid[kv.first] = true; } // anything but a rebuild on stale partitions: no claim afterwards
 		if (op != "Restart" && op != "SetPartitions") partExpect.erase(sidx);
 		if (op != "Restart" && !(op == "DeleteVerts" && jbool(st, "blind", false))) blindWant.clear(); // observed from here on // any other operation on the shape ends the "set, save, reload" episode
 
@@ -380,6 +384,30 @@ void profile_mesh(const json& plan, Ctx& ctx) {
 				if (readPartLabelling(shape, pl)) partExpect[sidx] = pl;
 			}
 		}
+		else if (op == "AddTriangles") {
+			// the shape's triangle list is replaced through the shape object by a longer one (new, distinct triangles appended)
+			if (!shape || !shape->IsSkinned() || shape->GetNumVertices() < 4 || !pf.cover(sidx)) { stepNo++; continue; } // (only on a shape whose partitions cover it now)
+			std::vector<Triangle> tris;
+			if (!shape->GetTriangles(tris) || tris.empty()) { stepNo++; continue; }
+			std::set<TriKey> have;
+			for (auto& t : tris) have.insert(canonTri(t));
+			Rng r(ju64(st, "salt", 1) * 53 + 7);
+			uint16_t nv = shape->GetNumVertices();
+			int added = 0, want = 1 + int(ju64(st, "salt", 1) % 3);
+			for (int tries = 0; tries < 200 && added < want && tris.size() < 65000; tries++) {
+				Triangle t(uint16_t(r.below(nv)), uint16_t(r.below(nv)), uint16_t(r.below(nv)));
+				if (t.p1 == t.p2 || t.p2 == t.p3 || t.p1 == t.p3 || !have.insert(canonTri(t)).second) continue;
+				tris.push_back(t);
+				added++;
+			}
+			if (!added) { stepNo++; continue; }
+			shape->SetTriangles(tris);
+			pf.trianglesChanged[sidx] = true;
+			pf.notRebuilt[sidx] = true;
+			ctx.sig.tag("addtris"); ctx.sig.i(added);
+			ctx.probe("triangles_added_through_shape");
+			ctx.nontrivial = true;
+		}
 		else if (op == "UpdateSkinPartitions") {
 			if (!shape) { stepNo++; continue; }
 			w.nif->UpdateSkinPartitions(shape);
@@ -395,6 +423,11 @@ void profile_mesh(const json& plan, Ctx& ctx) {
 					for (auto& p : bsd->partitions) ids.insert(p.partID);
 					if (ids.size() < bsd->partitions.size()) ctx.probe("bone_limit_split_or_shared_slot");
 				}
+			}
+			if (pf.trianglesChanged.count(sidx) && pf.trianglesChanged[sidx]) {
+				// "after skin partitions are rebuilt every triangle of the shape lies in exactly one partition": also the ones added since
+				pf.trianglesChanged[sidx] = false;
+				ctx.probe("rebuilt_after_triangles_were_replaced");
 			}
 			if (pf.cover(sidx)) pf.notRebuilt[sidx] = false;
 			if (prop_is(ctx, "C10") && pf.cover(sidx)) checkPartitions(*w.nif, shape, ctx, where, true);
